@@ -361,6 +361,12 @@ class bytes_(metaclass=_BytesMeta):
     def fromhex(s):
         from .core import TOK
         if TOK in s:
+            # text with a number token in it: whatever digits the token stands for, a character outside the number
+            # that is no hex digit (the 'x' of a 0x prefix, a sign) makes CPython raise ValueError
+            import re as _re
+            rest = _re.sub(_re.escape(TOK) + r"[^" + _re.escape(TOK) + r"]*" + _re.escape(TOK), "", s)
+            if any(c not in "0123456789abcdefABCDEF \t\n\r\f\v" for c in rest):
+                raise ValueError("non-hexadecimal number found in fromhex() arg")
             raise Unsupported("bytes.fromhex of tokenised text")
         return _rbytes.fromhex(s)
 
